@@ -257,6 +257,11 @@ def generate(info):  # pylint: disable=too-many-locals,too-many-statements
     w('    else if (cmd == "sleep") { int ms; is >> ms; std::this_thread::sleep_for(std::chrono::milliseconds(ms)); }')
     w('    else if (cmd == "force") { std::string key; is >> key; long v; std::lock_guard<std::mutex> l(vf::S().forced_m); '
       'while (is >> v) vf::S().forced[key].push_back(v); }')
+    w('    else if (cmd == "react") { std::string key, p, e; is >> key >> p >> e; '
+      'std::lock_guard<std::mutex> l(vf::S().react_m); '
+      'vf::S().reactions[key] = [p, e] { do_call("comp", p, e, ""); }; }')
+    w('    else if (cmd == "unreact") { std::lock_guard<std::mutex> l(vf::S().react_m); '
+      'vf::S().reactions.clear(); }')
     w('    else if (cmd == "addr") { report_addresses(); }')
     w('    else if (cmd == "touch") { touch_public_members(); vf::note("touched"); }')
     w('    else if (cmd == "mark") { std::string m; is >> m; vf::note("mark", "\\"m\\":\\"" + m + "\\"," + vf::ctx()); }')
